@@ -457,6 +457,42 @@ def _len(v):
     return 'auto' if v is None else v
 
 
+def dense_family():
+    """Deterministic family for dense packing (css-grid 8.5): grids of three tracks on the second axis of the
+    auto-flow, `dense`, row and column flow; one or two automatic items, the second too wide for what is left of the
+    first row (resp. column) so that the cursor moves on and leaves a hole, optionally an item that fills the hole,
+    then an item *locked* to one track of the second axis with the auto-flow axis automatic (span 1 or 2), then one more
+    automatic item.  Every item must take the first position, from the start of the grid, where it fits."""
+    def item(ident, first=('auto', 'auto'), second=('auto', 'auto'), flow='row'):
+        rows, cols = (first, second) if flow == 'row' else (second, first)
+        return {'id': ident, 'order': 0, 'rs': rows[0], 're': rows[1], 'cs': cols[0], 'ce': cols[1],
+                'width': None, 'height': None, 'ml': 0, 'mr': 0, 'mt': 0, 'mb': 0, 'pl': 0, 'pr': 0, 'pt': 0, 'pb': 0,
+                'bl': 0, 'br': 0, 'bt': 0, 'bb': 0, 'js': 'auto', 'as': 'auto', 'float': 'none'}
+    tracks = [('names', [])]
+    for size in (20, 30, 40):
+        tracks += [('size', ('px', F(size))), ('names', [])]
+    docs_ = []
+    for flow in ('row', 'column'):
+        for a in (1, 2):
+            for b in (2, 3):
+                for filler in (False, True):
+                    for line in (1, 2, 3):
+                        for lspan in (1, 2):
+                            items = [item(0, second=('auto', ('span', a, None)), flow=flow),
+                                     item(1, second=(('span', b, None), 'auto'), flow=flow)]
+                            if filler:
+                                items.append(item(len(items), flow=flow))
+                            items.append(item(len(items), first=('auto', ('span', lspan, None)),
+                                              second=((None, line, None), 'auto'), flow=flow))
+                            items.append(item(len(items), flow=flow))
+                            docs_.append({
+                                'rows': tracks if flow == 'column' else None, 'cols': tracks if flow == 'row' else None,
+                                'auto_rows': [('px', F(10))], 'auto_cols': [('px', F(10))], 'flow': flow, 'dense': True,
+                                'areas': None, 'colgap': 0, 'rowgap': 0, 'width': 200, 'height': None,
+                                'jc': 'start', 'ac': 'start', 'ji': 'normal', 'ai': 'normal', 'items': items})
+    return docs_
+
+
 def area_derived(p):
     """css-grid 8.4, omitted component of `grid-area`: the corresponding start value when that is a <custom-ident>
     (no span, no integer), `auto` otherwise."""
